@@ -68,6 +68,14 @@ func (c *Ctl) Commits() int64 { return atomic.LoadInt64(&c.commits) }
 // Frozen reports whether the crash point has been reached.
 func (c *Ctl) Frozen() bool { return atomic.LoadInt32(&c.frozen) == 1 }
 
+// Unfreeze ends the simulated crash (the next process opens the database normally).
+func (c *Ctl) Unfreeze() {
+	c.mu.Lock()
+	c.FreezeAfter = 0
+	c.mu.Unlock()
+	atomic.StoreInt32(&c.frozen, 0)
+}
+
 // Reads returns the number of read calls seen by the pause filter's goroutine.
 func (c *Ctl) Reads() int64 { return atomic.LoadInt64(&c.reads) }
 
